@@ -26,6 +26,9 @@
    reference # platform is an error of this specification, never a finding.
    "open": texts whose acceptance the property does not fix (embedded IPv4
    tails with leading zeros) are not compared.
+   The IPv4 tails include hex groups glued to the dotted quad ("::a1.2.3.4"):
+   strict parsers reject them; a parser that reads the group past the start of
+   the quad's first number would consume the digits twice.
 *)
 EXTENDS Integers, Sequences, FiniteSets, TLC, Json
 
@@ -87,7 +90,15 @@ Tail6 == << T6(<<>>, "none", <<>>),
             T6(<<49, 46, 50, 46, 51, 46, 50, 53, 54>>, "bad", <<>>),                      \* 1.2.3.256
             T6(<<49, 46, 50, 46, 51, 46, 43, 52>>, "bad", <<>>),                          \* 1.2.3.+4
             T6(<<49, 46, 50, 46, 51, 46, 52, 46, 53>>, "bad", <<>>),                      \* 1.2.3.4.5
-            T6(<<48, 49, 46, 50, 46, 51, 46, 52>>, "open", <<>>) >>                       \* 01.2.3.4
+            T6(<<48, 49, 46, 50, 46, 51, 46, 52>>, "open", <<>>),                         \* 01.2.3.4
+            (* a hex group glued to the dotted quad (its ':' lost): the last piece is then not an IPv4 text *)
+            T6(<<97, 49, 46, 50, 46, 51, 46, 52>>, "bad", <<>>),                          \* a1.2.3.4
+            T6(<<98, 49, 48, 46, 48, 46, 48, 46, 49>>, "bad", <<>>),                      \* b10.0.0.1
+            T6(<<102, 49, 57, 50, 46, 48, 46, 50, 46, 51, 51>>, "bad", <<>>),             \* f192.0.2.33
+            T6(<<70, 70, 49, 46, 50, 46, 51, 46, 52>>, "bad", <<>>),                      \* FF1.2.3.4
+            T6(<<49, 97, 49, 46, 50, 46, 51, 46, 52>>, "bad", <<>>),                      \* 1a1.2.3.4
+            (* a digit glued to the quad is simply another quad *)
+            T6(<<49, 49, 46, 50, 46, 51, 46, 52>>, "ok", <<2818, 772>>) >>                \* 11.2.3.4
 (* a structured IPv6 text: n group slots (default token of slot i: the digit i, value i),
    gaps = set of positions 0..n where "::" stands (before slot p+1), dev = <<slot, token>> or <<0, 0>>,
    tail index, lead/trail = a stray single ':' *)
@@ -178,7 +189,12 @@ SpAddr == << [f |-> 4, b |-> <<49, 46, 50, 46, 51, 46, 52>>, ok |-> TRUE, a |-> 
              [f |-> 4, b |-> <<50, 53, 53, 46, 48, 46, 48, 46, 50, 53, 54>>, ok |-> FALSE, a |-> <<>>],
              [f |-> 6, b |-> <<58, 58, 49>>, ok |-> TRUE, a |-> <<0, 0, 0, 0, 0, 0, 0, 0, 0, 0, 0, 0, 0, 0, 0, 1>>],
              [f |-> 6, b |-> <<49, 58, 58, 102, 102, 58, 50>>, ok |-> TRUE, a |-> <<0, 1, 0, 0, 0, 0, 0, 0, 0, 0, 0, 0, 0, 255, 0, 2>>],
-             [f |-> 6, b |-> <<49, 58, 58, 103>>, ok |-> FALSE, a |-> <<>>] >>
+             [f |-> 6, b |-> <<49, 58, 58, 103>>, ok |-> FALSE, a |-> <<>>],
+             [f |-> 6, b |-> <<58, 58, 97, 49, 46, 50, 46, 51, 46, 52>>, ok |-> FALSE, a |-> <<>>],            \* ::a1.2.3.4
+             [f |-> 6, b |-> <<58, 58, 102, 102, 102, 102, 58, 98, 49, 48, 46, 48, 46, 48, 46, 49>>, ok |-> FALSE, a |-> <<>>],   \* ::ffff:b10.0.0.1
+             [f |-> 6, b |-> <<54, 52, 58, 102, 102, 57, 98, 58, 58, 102, 49, 57, 50, 46, 48, 46, 50, 46, 51, 51>>, ok |-> FALSE, a |-> <<>>],   \* 64:ff9b::f192.0.2.33
+             [f |-> 6, b |-> <<58, 58, 49, 49, 46, 50, 46, 51, 46, 52>>, ok |-> TRUE,
+              a |-> <<0, 0, 0, 0, 0, 0, 0, 0, 0, 0, 0, 0, 11, 2, 3, 4>>] >>                                    \* ::11.2.3.4
 SpStates == {[a |-> ai, p |-> pi, br |-> br] : ai \in 1..Len(SpAddr), pi \in 1..Len(Port6), br \in BOOLEAN}
 (* text: addr | addr:port | [addr] | [addr]:port ; an unbracketed IPv6 address cannot carry a port *)
 SpText(s) == LET ad == SpAddr[s.a].b
